@@ -133,3 +133,65 @@ func (i *Instance) LiveRefs() []*Ref {
 }
 
 var _ directive.Instance = (*Instance)(nil)
+
+// ResolverHandler is a fake directive.ResolverHandler recording values.
+type ResolverHandler struct {
+	mu     sync.Mutex
+	next   uint32
+	Values map[uint32]directive.Value
+	Hist   []directive.Value
+	Idle   bool
+}
+
+// NewResolverHandler builds a fake resolver handler.
+func NewResolverHandler() *ResolverHandler {
+	return &ResolverHandler{Values: map[uint32]directive.Value{}}
+}
+
+func (h *ResolverHandler) AddValue(v directive.Value) (uint32, bool) {
+	h.mu.Lock()
+	defer h.mu.Unlock()
+	h.next++
+	h.Values[h.next] = v
+	h.Hist = append(h.Hist, v)
+	return h.next, true
+}
+func (h *ResolverHandler) RemoveValue(id uint32) (directive.Value, bool) {
+	h.mu.Lock()
+	defer h.mu.Unlock()
+	v, ok := h.Values[id]
+	delete(h.Values, id)
+	return v, ok
+}
+func (h *ResolverHandler) CountValues(all bool) int {
+	h.mu.Lock()
+	defer h.mu.Unlock()
+	return len(h.Values)
+}
+func (h *ResolverHandler) ClearValues() []uint32 {
+	h.mu.Lock()
+	defer h.mu.Unlock()
+	var ids []uint32
+	for id := range h.Values {
+		ids = append(ids, id)
+	}
+	h.Values = map[uint32]directive.Value{}
+	return ids
+}
+func (h *ResolverHandler) MarkIdle(idle bool) {
+	h.mu.Lock()
+	h.Idle = idle
+	h.mu.Unlock()
+}
+func (h *ResolverHandler) AddValueRemovedCallback(id uint32, cb func()) func()  { return func() {} }
+func (h *ResolverHandler) AddResolverRemovedCallback(cb func()) func()          { return func() {} }
+func (h *ResolverHandler) AddResolver(res directive.Resolver, cb func()) func() { return func() {} }
+
+// All returns every value ever added.
+func (h *ResolverHandler) All() []directive.Value {
+	h.mu.Lock()
+	defer h.mu.Unlock()
+	return append([]directive.Value{}, h.Hist...)
+}
+
+var _ directive.ResolverHandler = (*ResolverHandler)(nil)
